@@ -27,6 +27,7 @@ Definition enc (a : bact) : leaf_act :=
    match a with
    | ACas f t => [LZ (st_code f); LZ (st_code t)]
    | AStoreRetry v => [LZ v]
+   | AOnComplete rt e => [LZ rt; LZ e]
    | ANotifyOpen p sn => [LZ (st_code p); enc_snap sn]
    | ANotifyHalf p | ANotifyClosed p => [LZ (st_code p)]
    | AClosedToOpen sn | AHalfToOpen sn => [enc_snap sn]
@@ -202,6 +203,14 @@ Proof. unfold cb_errCount_sum_step, sum_step, adds_leaf. destruct cur_ok, err; l
 
 (* ---- the sequential model of C03 is these functions run by one caller (Proofs/BreakerLeafProofs.v) ---- *)
 
+(* ---- MetricStatSlot.OnCompleted, one iteration of the loop over the breakers (LoopBody): exactly one
+   OnRequestComplete with the entry's rt and error, then on to the next breaker; the entry's batch
+   count, types, args and attachments are not parameters of the regenerated function at all
+   (Proofs.BreakerLeafProofs.complete_all_once: the model's complete_all does the same) ---- *)
+Lemma cb_statSlot_step_ok rt e :
+  cb_statSlot_step rt e = (LContinue tt, map enc (stat_slot_step rt e)).
+Proof. unfold cb_statSlot_step, stat_slot_step. leaf_solve. Qed.
+
 Theorem C03_try_pass_regenerated c b now :
   cb_slow_TryPass (probe_num c) true (next_retry b) now (st_code (state b))
     = enc_res (try_pass_leaf (probe_num c) (state b) (next_retry b) now true)
@@ -228,3 +237,4 @@ Print Assumptions C03_try_pass_regenerated.
 Print Assumptions cb_slow_sum_step_ok.
 Print Assumptions cb_errRatio_sum_step_ok.
 Print Assumptions cb_errCount_sum_step_ok.
+Print Assumptions cb_statSlot_step_ok.
